@@ -98,6 +98,35 @@ pub fn exec(rec: &Value, _st: &mut State) -> Value {
     let op = gs(rec, "op");
     let s = scale_of(rec);
     match op {
+        // ---- outer tangents of two large circles whose radii differ by a few units in millions: the exact integer clauses
+        //      would overflow, so the harness reports relative residuals (derived observations, unit 2^-30)
+        "ccnear" => {
+            let v0 = gvi(rec, "c0");
+            let v1 = gvi(rec, "c1");
+            let c0 = circle(&v0, s);
+            let c1 = circle(&v1, s);
+            let u = 1073741824.0;
+            guarded(|| {
+                match c0.outer_tangents_to(&c1) {
+                    None => json!({"some": false, "segs": []}),
+                    Some((a, b)) => {
+                        let mut qq = Q::new();
+                        let (o0, o1) = (Point2::new(c0.x(), c0.y()), Point2::new(c1.x(), c1.y()));
+                        let axis = o1 - o0;
+                        let mut segs = vec![];
+                        for g in [&a, &b] {
+                            let (ra, rb, t) = (g.a - o0, g.b - o1, g.b - g.a);
+                            segs.push(json!({
+                                "on0": qq.q((ra.norm() - c0.r()) / c0.r(), u), "on1": qq.q((rb.norm() - c1.r()) / c1.r(), u),
+                                "perp0": qq.q(ra.dot(&t) / (ra.norm() * t.norm()), u), "perp1": qq.q(rb.dot(&t) / (rb.norm() * t.norm()), u),
+                                "same": qq.q(ra.normalize().dot(&rb.normalize()) - 1.0, u),
+                                "side": cmp3(axis.x * ra.y - axis.y * ra.x, 0.0)}));
+                        }
+                        json!({"some": true, "segs": segs, "finite": qq.finite})
+                    }
+                }
+            })
+        }
         // ---- two circles: intersections both ways, intersection interval, outer tangents, cached boxes
         "cc" => {
             let v0 = gvi(rec, "c0");
